@@ -617,6 +617,35 @@ pub fn run_c16(cfg: &Cfg) -> i32 {
             text = text.replacen(" jcmd:active=", &format!(" xmlns:jcmd=\"{JCMD}\" jcmd:active="), 1);
             rep.count("configs_with_duplicate_xmlns_jcmd");
         }
+        // the same attribute values spelled with character references (any XML writer may do
+        // that for any character): the marker, the expression, the active flag
+        if r.chance(1, 5) {
+            let (from, to) = *r.pick(&[
+                ("bgpfu-fltr:", "bgpfu&#45;fltr:"), ("bgpfu-fltr:", "bgpfu-fltr&#x3a;"), ("bgpfu-fltr:", "bgpfu-&#x66;ltr:"), ("bgpfu-fltr:", "&#98;gpfu-fltr:"),
+                ("active=\"false\"", "active=\"f&#97;lse\""), ("active=\"true\"", "active=\"&#x74;rue\""), ("AS", "&#65;S"),
+            ]);
+            if text.contains(from) {
+                // attribute values only: element text (names) is left alone
+                let mut out = String::new();
+                let mut rest = text.as_str();
+                while let Some(q) = rest.find("=\"") {
+                    let (head, tail) = rest.split_at(q + 2);
+                    out.push_str(head);
+                    let endq = tail.find('"').unwrap_or(tail.len());
+                    out.push_str(&tail[..endq].replace(from, to));
+                    rest = &tail[endq..];
+                }
+                out.push_str(rest);
+                // `active="false"` sits in the tag, not in a value: handle the attribute forms too
+                if from.starts_with("active=") {
+                    out = out.replace(from, to);
+                }
+                if out != text {
+                    text = out;
+                    rep.count("configs_with_character_references_in_attribute_values");
+                }
+            }
+        }
         rep.case(if stmts.len() >= 2 { Some(text.as_bytes()) } else { None });
         for s in &stmts {
             rep.count(&format!("stmt:{}", s.kind));
